@@ -109,6 +109,7 @@ type CondSpec struct {
 }
 
 type Spec struct {
+	ExtSpec                 // additive kinds, see ext.go
 	Module      string      `json:"module"`       // output file Gen/<Module>.lean
 	Imports     []string    `json:"imports"`      // other Gen modules this one refers to
 	LeanImports []string    `json:"lean_imports"` // hand-written Lean modules (receiver structures of translated predicates)
